@@ -362,3 +362,69 @@ Definition run_query_chk (x : sx) : sx :=
                        sx_ok (L [of_tres of_LZ (children_chk t li n); of_tres of_anc (ancestors_chk t li n)])
                    | _, _, _ => sx_bad end
   | _ => sx_bad end.
+
+(* ================= additions (C10 compositions; used by C01 / C17) ================= *)
+(* drop_level applied repeatedly: every position refers to the tree that is current at that moment *)
+Fixpoint drop_levels (t : tree) (lis : list nat) : tres tree :=
+  match lis with
+  | [] => TOk t
+  | li :: rest => match drop_level t li with
+                  | TOk t' => drop_levels t' rest
+                  | TErr c => TErr c
+                  end
+  end.
+
+(* TaxonomyTree.backfill_assignments, the 'assignment' of one cell: rec = per level of the
+   hierarchy (top first) the node stored for the cell, None = that level is absent from the
+   cell's record.  The loop runs over (child level, parent level) from the leaves upward; a
+   level that is present is left alone; a level that is absent is filled with the recorded
+   parent of the node one level down when that level is present (KeyError when the node has
+   no recorded parent); a level filled in one step counts as present in the next.
+   k = number of (child, parent) pairs still to process: the next pair is (level k, level k-1). *)
+Fixpoint backfill_from (t : tree) (k : nat) (rec : list (option node)) : tres (list (option node)) :=
+  match k with
+  | O => TOk rec
+  | S j =>
+      match nth j rec None with
+      | Some _ => backfill_from t j rec
+      | None =>
+          match nth (S j) rec None with
+          | None => backfill_from t j rec
+          | Some c =>
+              match parent_of (nth j t []) c with
+              | Some p => backfill_from t j (replace_nth j (Some p) rec)
+              | None => TErr E_KEY
+              end
+          end
+      end
+  end.
+Definition backfill (t : tree) (rec : list (option node)) : tres (list (option node)) :=
+  backfill_from t (length t - 1) rec.
+
+(* the ancestor of node x (of level li) at level k <= li: x itself for k = li, else the entry of
+   level k in parents(li, x) *)
+Definition ancestor_at (t : tree) (li : nat) (x : node) (k : nat) : option node :=
+  if Nat.eqb k li then Some x
+  else option_map snd (find (fun a => Nat.eqb (fst a) k) (ancestors t li x)).
+
+(* wire *)
+Definition sx_optZ (x : sx) : option (option Z) :=
+  match x with
+  | L [] => Some None
+  | L [I z] => Some (Some z)
+  | _ => None
+  end.
+(* tag 1017: (tree (li ...)) -> drop_levels *)
+Definition run_drop_levels (x : sx) : sx :=
+  match x with
+  | L [a; b] => match sx_tree a, sx_Lnat b with
+                | Some t, Some lis => of_tres of_tree (drop_levels t lis)
+                | _, _ => sx_bad end
+  | _ => sx_bad end.
+(* tag 1018: (tree ((() | (node)) ...)) -> backfill *)
+Definition run_backfill (x : sx) : sx :=
+  match x with
+  | L [a; b] => match sx_tree a, sx_list sx_optZ b with
+                | Some t, Some r => of_tres (of_list (of_option of_Z)) (backfill t r)
+                | _, _ => sx_bad end
+  | _ => sx_bad end.
